@@ -124,6 +124,16 @@ def oracle(ubi, gv, tol, sel=None):
 
 
 def check_case(sh, cI, indexing, ubi, gv, tol, case, do_python=True):
+    gv_in, ubi_in = gv.copy(), ubi.copy()
+    _check_case(sh, cI, indexing, ubi, gv, tol, case, do_python)
+    # only score_and_refine may write, and only into the matrix it is given (it always gets a copy here)
+    if not (np.array_equal(gv, gv_in) and np.array_equal(ubi, ubi_in)):
+        sh.violation("arguments-modified-by-a-scoring-call", case, {"gv_changed": not np.array_equal(gv, gv_in), "ubi_changed": not np.array_equal(ubi, ubi_in)})
+        gv[...] = gv_in
+        ubi[...] = ubi_in
+
+
+def _check_case(sh, cI, indexing, ubi, gv, tol, case, do_python=True):
     o = oracle(ubi, gv, tol)
     if o["status"] == "borderline" and "n" not in o:
         sh.borderline += 1
